@@ -287,7 +287,8 @@ func (r request) body() string {
 	return `{}`
 }
 
-const prefix = "/api/v1"
+// the prefix shares characters with the first letters of the resource names (r, s, x2): stripping it must remove the prefix itself, not a character set
+const prefix = "/srv/x1"
 
 func (r request) build() ([]byte, error) {
 	path := r.Path
